@@ -388,6 +388,9 @@ func (c *Cluster) dagReplay(variants int) {
 		return
 	}
 	c.stats.probe("dagreplay-dag")
+	if c.synthetic {
+		c.findNears(ref)
+	}
 	c.crossCheckRefModel(ref)
 	c.trace.add(fmt.Sprintf("dag:%s:%d", c.dagShape(), len(ref.sn.app.log)))
 	c.stats.BlocksDelivered += len(ref.sn.app.log)
